@@ -162,17 +162,19 @@ class Ctx:
         if 'harness_error' in res:
             raise HarnessError('stage %s case %s:\n%s' % (stage, canon_json(case)[:400], res['harness_error']))
         st = self.stage(stage)
-        self.evaluations += 1
-        st['evaluations'] += 1
+        ne = int(res.get('evaluations', 1))      # a grouped case reports how many inner evaluations it ran
+        self.evaluations += ne
+        st['evaluations'] += ne
+        st['cases'] = st.get('cases', 0) + 1
         s, t = int(res.get('states', 1)), int(res.get('transitions', 0))
         self.states += s
         self.transitions += t
         st['states'] += s
         st['transitions'] += t
         self.traces += int(res.get('traces', 1))
-        if res.get('nontrivial', True):
-            self.nontrivial += 1
-            st['nontrivial'] += 1
+        nn = int(res['nontrivial_count']) if 'nontrivial_count' in res else (1 if res.get('nontrivial', True) else 0)
+        self.nontrivial += nn
+        st['nontrivial'] += nn
         oc = res.get('outcome')
         if oc is not None:
             key = stage + ':' + (oc if isinstance(oc, str) else canon_json(oc))
